@@ -191,20 +191,22 @@ def _rng(seed: int, sid: str):
     return random.Random(zlib.crc32(("%d:%s" % (seed, sid)).encode()))
 
 
-def run_batch(scns: list[dict], seed: int = 0) -> list[dict]:
+def run_batch(scns: list[dict], seed: int = 0, xsd: bool = False) -> list[dict]:
     """Replay the scenarios of one batch in one presentation. Returns one trace per scenario:
-    {"id","site","prior","pre": obs before the first action, "steps": [{"a","out","same","t"}]} (t = [] when same)."""
+    {"id","site","prior","pre": obs before the first action, "steps": [{"a","out","same","t"}]} (t = [] when same).
+    xsd=True (C03 host): traces[0]["xsd"] = {"built": .., "final": ..} - the XSD monitor's verdict on the slide part after the prior
+    bodies were built and after the last action of the batch."""
     try:
-        return _run_batch(scns, seed)
+        return _run_batch(scns, seed, xsd=xsd)
     except Exception as e:                                   # a failing package save/re-open: isolate the scenario
         if len(scns) > 1:
-            return [run_batch([s], seed)[0] for s in scns]
+            return [run_batch([s], seed, xsd)[0] for s in scns]
         tr = _run_batch(scns, seed, stop_at_reopen=True)
         tr[0]["steps"].append({"a": {"op": "SaveReopen"}, "out": type(e).__name__, "same": True, "t": []})
         return tr
 
 
-def _run_batch(scns, seed, stop_at_reopen=False):
+def _run_batch(scns, seed, stop_at_reopen=False, xsd=False):
     import pptx
     prs = pptx.Presentation()
     slide = prs.slides.add_slide(prs.slide_layouts[6])
@@ -219,6 +221,10 @@ def _run_batch(scns, seed, stop_at_reopen=False):
         pos.append(0)
         last.append(o)
         rngs.append(_rng(seed, sc["id"]))
+    mon = {}
+    if xsd:
+        from mbt.monitor import xsd as X
+        mon["built"] = X.errors(slide._element)
     while True:
         waiting = []
         for k, sc in enumerate(scns):
@@ -262,6 +268,10 @@ def _run_batch(scns, seed, stop_at_reopen=False):
         tr["used"] = []
     if traces:
         traces[0]["used"] = sorted(used)
+        if xsd:
+            from mbt.monitor import xsd as X
+            mon["final"] = X.errors(prs.slides[0]._element)
+            traces[0]["xsd"] = mon
     return traces
 
 
